@@ -227,6 +227,29 @@ def c1_tt(fb, rep):
 
 def c2_rest(fb, rep):
     clause = 'C14.2'
+    # the per-search statistics accumulators of the communicator (nodes / tablebase hits reported by helpers) are part of
+    # the node count the next search reports and stops on: every search start resets them, whatever the pool looks like
+    si = fb.find1('Communicator::sendInitSearch')
+    if rep.need(clause, si, 'Communicator::sendInitSearch'):
+        eff_c = Effects(fb, 'Communicator')
+        accs = set()
+        for f_ in fb.funcs.values():
+            if f_.has_cfg and (f_.d.get('cls') or '').endswith('Communicator'):
+                for _, _, e_ in f_.events():
+                    tgt_ = e_.get('l') if (e_.get('k') == 'asg' and e_.get('op') == '+=') else e_.get('recv') if (e_.get('k') == 'call' and cname(e_).endswith('operator+=')) else None
+                    if tgt_ is not None and (ap(tgt_) or '').startswith('this.') and ap(tgt_).count('.') == 1:
+                        fld_ = ap(tgt_)[5:]
+                        if fb.field('Communicator::' + fld_) is not None:
+                            accs.add(fld_)
+        rep.floor(clause, 'statistics accumulators of the communicator', len(accs), 2)
+        for fld_ in sorted(accs):
+            rep.ob(clause, 'K13 reset completeness', 'Communicator::sendInitSearch resets the accumulator %s on every path (also when there are no helper threads)' % fld_,
+                   eff_c.must_write(si, fld_), si.where, '', si.sname)
+        it_ = fb.find1('Search::iterativeDeepening')
+        if it_ is not None:
+            R.must_pass_between(rep, it_, clause, 'iterativeDeepening starts every search with sendInitSearch', None,
+                                lambda e: e is not None and e.get('k') == 'call' and cname(e) in ('Search::negaScoutRoot', 'Search::negaScout'),
+                                R.is_named_call('Communicator::sendInitSearch'))
     ctor = fb.find1('EngineControl::EngineControl')
     if rep.need(clause, ctor, 'EngineControl::EngineControl'):
         lam = None
